@@ -65,8 +65,8 @@ def _run(ctx):
     rule = ("every exported case is built as real signed objects and validated by the real engine with the cache inside a "
             "jail directory, then dumped (Engine::dump): singles = every URI over the whole segment alphabet (parser verdict, "
             "confinement, the model's predicted entries); pairs = all accepted URIs one edit apart (host case, port, host, "
-            "module, one segment, one/two segments appended, trailing slash) in five roles (manifest URIs without / with "
-            "rpkiNotify, rsync and HTTPS trust anchor URIs, rpkiNotify URIs); oracle: nothing created outside cache/ and "
+            "module, one segment, one/two segments appended, trailing slash) in six roles (manifest URIs without / with "
+            "rpkiNotify, rsync and HTTPS trust anchor URIs, rpkiNotify URIs of CAs with different and with the same manifest URI); oracle: nothing created outside cache/ and "
             "dump/; for non-equivalent URIs no shared file, no file that is a directory prefix of the other's entry, no run or "
             "dump that works for each alone and fails for both; non-trivial = accepted URI resp. non-equivalent accepted pair, "
             "distinct by (kind, URIs)")
@@ -79,7 +79,7 @@ CHECKS = {
         "technique": "TLA+ model of the URI -> local path builders (Paths.tla) checked exhaustively by TLC; exported URI singles "
                      "and pairs replayed as generated repositories through the real engine inside a jail directory",
         "level_text": "TLC: all pairs of accepted URIs (2 hosts x case x port x 2 modules x paths of <= 2 resp. 3 segments incl. "
-                      "trailing slash; HTTPS authorities incl. '' and '..') in five roles satisfy Confined and Distinct on the "
+                      "trailing slash; HTTPS authorities incl. '' and '..') in six roles satisfy Confined and Distinct on the "
                       "intended naming scheme and violate Distinct on the shipped one (F17). Replay: every single URI over the "
                       "alphabet {a, A, '.', '..', %2e%2e, %2F, 'a b', '', 200 chars} and every pair one edit apart is run "
                       "through the real store, collectors and dump.",
